@@ -128,7 +128,7 @@ def run(ctx, prog, res):
     r5 = res.rule("C12.R5", "10000-01-01 is reported as None: map_date_limit compares the naive local value with the core's DATE_END by equality and is applied to the end (not the start) of each yielded interval")
     ml = prog.require_fn(DTM + "::map_date_limit")
     cmps = [d for _, d in flow.comparisons(ml)]
-    ok = len(cmps) == 1 and cmps[0]["op"] == "Eq"
+    ok = len(cmps) == 1 and cmps[0]["op"] in ("Eq", "Ne")
     if ok:
         sides = [flow.shape(ml, cmps[0]["a"]), flow.shape(ml, cmps[0]["b"])]
         ok = sorted(sides) == sorted(["DateTimeMaybeAware::as_naive_local(p1)", "const:DATE_END"])
@@ -136,7 +136,10 @@ def run(ctx, prog, res):
         for sbb, _ in ml.live_blocks():
             d = flow.bool_switch_of(ml, sbb) or d
         none_b = [bb for bb, s in ml.stmts() if s["k"] == "assign" and s["dst"]["l"] == 0 and s["rv"]["k"] == "agg" and s["rv"].get("variant") == "None"]
-        ok = ok and d is not None and none_b and all(ml.dominates(d["true_bb"], b) for b in none_b)
+        equal_edge = None if d is None else (d["true_bb"] if d["op"] == "Eq" else d["false_bb"])
+        some_b = [bb for bb, s in ml.stmts() if s["k"] == "assign" and s["dst"]["l"] == 0 and s["rv"]["k"] == "agg" and s["rv"].get("variant") == "Some"]
+        other_edge = None if d is None else (d["false_bb"] if d["op"] == "Eq" else d["true_bb"])
+        ok = ok and d is not None and bool(none_b) and bool(some_b) and all(ml.dominates(equal_edge, b) for b in none_b) and all(ml.dominates(other_edge, b) for b in some_b)
     r5.check(ok, {"fn": ml.id, "test": "as_naive_local(self) == DATE_END -> None"}, "C12.R5:map_date_limit", "map_date_limit is not `if self.as_naive_local() == DATE_END { None } else { Some(self) }`", lib.where_of(ml))
     nx = prog.require_fn("opening_hours_py::types::iterator::RangeIterator::__next__")
     sh = flow.shape(nx, 0)
